@@ -99,12 +99,6 @@ Print Assumptions spec_archive_update_frame.
 
 Definition in_window (f S n t : Z) : Prop := exists k, 0 <= k < n /\ t = f + k * S.
 
-Fixpoint find_time (es : list point) (e : Z) : option Z :=
-  match es with
-  | [] => None
-  | p :: r => if p_time p =? e then Some (p_val p) else find_time r e
-  end.
-
 Lemma window_congruent_eq f S n N t e : 0 < S -> 0 < n <= N ->
   in_window f S n t -> in_window f S n e -> (t - e) mod (S * N) = 0 -> t = e.
 Proof.
